@@ -100,7 +100,9 @@ ConnEdges(D, m, path, inst, c) ==
   LET f   == Formal(D, inst.of, c.p)
       es  == Elems(inst)
       ctx == <<inst.n, c.p>>
-  IN IF f.bund # ""
+  IN IF c.t.k = "nc"
+     THEN {}          \* a no-connect joins nothing: every port bit of every element stays on a net of its own
+     ELSE IF f.bund # ""
      THEN \* bundle-valued port: leaf by leaf, the same bundle to every element
           UNION { UNION { LET lf == Leaves(D, f.bund)[l]
                               F  == SigBits(Append(path, es[k]), JoinU(<<c.p>> \o lf.path), lf.w)
